@@ -3,11 +3,9 @@
 Require Extraction.
 Require Import ExtrOcamlBasic.
 From JB Require Import Constants Bytes Utf8 Num Value Codec Decimal JsonText Order TreeOps Contain SetOps CmpKey
-<<<<<<< HEAD
-  Render Serde Path PathSem PathParse Dispatch Walk CompareWalk ComparableWalk RenderWalk.
-=======
-  Render Serde Path PathSem PathParse Dispatch Walk CompareWalk ComparableWalk SelWalk.
->>>>>>> w3
+  Render Serde Path PathSem PathParse Dispatch Walk CompareWalk ComparableWalk.
+From JB Require Import RenderWalk.
+From JB Require Import SelWalk.
 Extraction Language OCaml.
 Extraction "model.ml"
   to_vec write_to_vec enc parse_jsonb is_jsonb assoc_insert
